@@ -856,6 +856,12 @@ init_disk_set(kdump_ctx_t *ctx, unsigned fidx, off_t *pos,
 		return set_error(ctx, status,
 				 "Cannot read disk set header (%"PRIu32" blocks) at %llu",
 				 hdr_blocks, (unsigned long long) *pos);
+	if (hdr_blocks * sp->block_size < sizeof *sdsh) {
+		status = set_error(ctx, KDUMP_ERR_CORRUPT,
+				   "Disk set header too short (%"PRIu32" blocks)",
+				   hdr_blocks);
+		goto out;
+	}
 	sdsh = fch.data;
 	disk_num = dump32toh(ctx, sdsh->disk_num);
 	if (disk_num != get_num_files(ctx)) {
@@ -865,7 +871,7 @@ init_disk_set(kdump_ctx_t *ctx, unsigned fidx, off_t *pos,
 		goto out;
 	}
 
-	req_size = sizeof sdsh + disk_num * sizeof sdsh->vol_info[0];
+	req_size = sizeof *sdsh + disk_num * sizeof sdsh->vol_info[0];
 	act_size = hdr_blocks * sp->block_size;
 	if (req_size > act_size) {
 		status = set_error(ctx, KDUMP_ERR_CORRUPT,
